@@ -60,7 +60,7 @@ int main(int argc, char **argv) {
   if (det) {
     // determinism: fills 0x00, 0xA5, 0xFF, after assembling another source in the same process, and plain
     std::vector<Result> runs;
-    int fills[3] = {0x00, 0xA5, 0xFF};
+    int fills[3] = {0x00, 0xA5, 0x01};   // 0x01: the one byte value an uninitialised bool reads as a well-formed `true`
     for (int f : fills) { fillnew::set(f); fillnew::poisonStack(f); runs.push_back(assembleFile(src, outPath)); fillnew::set(-1); }
     fillnew::set(0x5A);
     if (!before.empty()) (void)assembleFile(before, outPath + ".before");
